@@ -28,7 +28,7 @@ func init() { core.Register(check{}) }
 func (check) ID() string    { return "C09" }
 func (check) Level() string { return "exploration" }
 func (check) Rule() string {
-	return "bounded-exhaustive enumeration, simplest first, of (schema, JSON document, options, API): the shared conversion scope (every finite boundary value of every scalar kind and enum as singular field / list element / map value, every boundary key of every map key kind; 6 embedding contexts x field numbers x every shape x sizes 0..3 / empty sub-messages; presence subsets; JSON-name spellings; recursive chains) rendered in 4 document variants (members addressed by field name or by JSON name, declaration or reverse order, explicit default members); length-prefix sweeps (payload 120..135 and 16376..16392 bytes inside every chain of message / repeated message / map-of-message links of depth 1..3, packed payloads around 127/128 and 16383/16384); nesting depth around the converter's 256-entry stack; null members; unknown members of every JSON kind x DisallowUnknownField; kind-mismatch table (JSON kind x field class); key/string/whitespace spellings. x {Do, DoInto}. A case is non-trivial if it is distinct by (schema, document) and at least one conversion was compared with the reference decode or with the demanded error. Later additions: after-failure family, base64-valid strings in the mismatch table, overwriting of the pooled buffers right after Do, two message types with one simple name."
+	return "bounded-exhaustive enumeration, simplest first, of (schema, JSON document, options, API): the shared conversion scope (every finite boundary value of every scalar kind and enum as singular field / list element / map value, every boundary key of every map key kind; 6 embedding contexts x field numbers x every shape x sizes 0..3 / empty sub-messages; presence subsets; JSON-name spellings; recursive chains) rendered in 4 document variants (members addressed by field name or by JSON name, declaration or reverse order, explicit default members); length-prefix sweeps (payload 120..135 and 16376..16392 bytes inside every chain of message / repeated message / map-of-message links of depth 1..3, packed payloads around 127/128 and 16383/16384); nesting depth around the converter's 256-entry stack; null members; unknown members of every JSON kind x DisallowUnknownField; kind-mismatch table (JSON kind x field class); key/string/whitespace spellings. x {Do, DoInto}. A case is non-trivial if it is distinct by (schema, document) and at least one conversion was compared with the reference decode or with the demanded error. Later additions: after-failure family, base64-valid strings in the mismatch table, overwriting of the pooled buffers right after Do, two message types with one simple name. Round 10: numbers spelled as JSON strings (error or the denoted message)."
 }
 func (check) Assumptions() []string {
 	return []string{
